@@ -500,3 +500,158 @@ Proof.
   destruct (aligned _) eqn:E; [|reflexivity]. exfalso.
   apply (@refusal_some_ranks_blocks n who pre body next r1 r2); auto. apply cterminates_iff_aligned, E.
 Qed.
+
+(* ---- node layouts: the scatter hands every record to exactly one processing rank, for every
+   assignment of processor names and every worker limit; the variant that cuts a chunk by the
+   worker limit agrees with it on one node and loses records on several ---- *)
+Lemma split_sizes_length n k : 0 < k -> length (split_sizes n k) = k.
+Proof.
+  intros Hk. unfold split_sizes. rewrite app_length, !repeat_length.
+  pose proof (Nat.mod_upper_bound n k). lia.
+Qed.
+
+Lemma list_sum_repeat x m : list_sum (repeat x m) = m * x.
+Proof. induction m; simpl; auto. Qed.
+
+Lemma split_sizes_sum n k : 0 < k -> list_sum (split_sizes n k) = n.
+Proof.
+  intros Hk. unfold split_sizes. rewrite list_sum_app, !list_sum_repeat.
+  pose proof (Nat.mod_upper_bound n k ltac:(lia)) as Hm.
+  pose proof (Nat.div_mod n k ltac:(lia)) as Hd.
+  nia.
+Qed.
+
+Section ScatterP.
+Context {A : Type}.
+
+Lemma take_pieces_length sizes (l : list A) : length (take_pieces sizes l) = length sizes.
+Proof. revert l. induction sizes; intros; simpl; auto. Qed.
+
+Lemma take_pieces_concat sizes (l : list A) : length l <= list_sum sizes -> concat (take_pieces sizes l) = l.
+Proof.
+  revert l. induction sizes as [|n ns IH]; intros l H; simpl in *.
+  - destruct l; simpl in *; auto; lia.
+  - rewrite IH; [apply firstn_skipn|]. rewrite skipn_length. lia.
+Qed.
+
+Lemma array_split_length (l : list A) k : 0 < k -> length (array_split l k) = k.
+Proof. intros. unfold array_split. rewrite take_pieces_length. apply split_sizes_length; auto. Qed.
+
+Lemma array_split_concat (l : list A) k : 0 < k -> concat (array_split l k) = l.
+Proof. intros. unfold array_split. apply take_pieces_concat. rewrite split_sizes_sum; auto. Qed.
+
+Lemma scatter_recs np (l : list A) : 0 < np -> chunk_recs (scatter np l) = l.
+Proof.
+  intros H. unfold scatter, chunk_recs. pose proof (array_split_concat l H) as Hc.
+  pose proof (array_split_length l H) as Hl.
+  destruct (array_split l np) as [|own rest]; simpl in *; [lia|exact Hc].
+Qed.
+
+(* the premise of the scatter step of the protocol: one piece per further processing rank *)
+Lemma scatter_length np (l : list A) : 0 < np -> length (snd (scatter np l)) = np - 1.
+Proof.
+  intros H. unfold scatter. pose proof (array_split_length l H) as Hl.
+  destruct (array_split l np) as [|own rest]; simpl in *; lia.
+Qed.
+
+Lemma all_recs_scatter np (data : list (list A)) : 0 < np -> all_recs (map (scatter np) data) = concat data.
+Proof.
+  intros H. unfold all_recs. induction data as [|l data IH]; simpl; auto.
+  rewrite IH, scatter_recs; auto.
+Qed.
+
+Lemma scatter_var_same np (l : list A) : 0 < np -> scatter_var np np l = scatter np l.
+Proof.
+  intros H. unfold scatter_var, scatter. pose proof (array_split_length l H) as Hl.
+  destruct (array_split l np) as [|own rest]; simpl in *; auto.
+  rewrite firstn_all2; auto. lia.
+Qed.
+End ScatterP.
+
+Lemma nproc_pos hosts mw np : nproc hosts mw = Some np -> 0 < np.
+Proof.
+  unfold nproc. destruct (_ <? 2); [discriminate|].
+  destruct (active_ranks hosts mw) as [|a [|b r]]; try discriminate. intros E. inversion E. lia.
+Qed.
+
+(* processing ranks + writer = the allowed ranks on the reader's node *)
+Lemma nproc_length hosts mw np : nproc hosts mw = Some np -> length (active_ranks hosts mw) = S np.
+Proof.
+  unfold nproc. destruct (_ <? 2); [discriminate|].
+  destruct (active_ranks hosts mw) as [|a [|b r]]; try discriminate. intros E. inversion E. reflexivity.
+Qed.
+
+(* the request is refused exactly when fewer than two workers are allowed or the reader has no
+   allowed rank on its node *)
+Lemma nproc_none_iff hosts mw :
+  nproc hosts mw = None <-> eff_workers (length hosts) mw < 2 \/ length (active_ranks hosts mw) < 2.
+Proof.
+  unfold nproc. destruct (_ <? 2) eqn:E.
+  - apply Nat.ltb_lt in E. tauto.
+  - apply Nat.ltb_ge in E. destruct (active_ranks hosts mw) as [|a [|b r]]; simpl; split; intros H; auto; try lia; try discriminate.
+Qed.
+
+(* every layout, every worker limit, every chunk list, every schedule: the root's catalog holds
+   exactly the input records (dictionaries sent with ssend) *)
+Theorem layout_no_loss (A : Type) hosts mw np sm (data : list (list A)) (s : MpiWrite.wst A) :
+  nproc hosts mw = Some np ->
+  wreach Sync sm (winit (map (scatter np) data) (np - 1)) s -> stopped s = true ->
+  Permutation (concat data) (stored s) /\ unreceived s = [].
+Proof.
+  intros Hn Hr Hs. apply nproc_pos in Hn.
+  destruct (write_ssend_no_loss Hr Hs) as [Hp Hu]. rewrite all_recs_scatter in Hp; auto.
+Qed.
+
+(* one node: every rank is on the reader's node, the processing ranks are all allowed ranks but one *)
+Lemma idx_where_all p l i : Forall (fun h => p h = true) l -> idx_where p l i = seq i (length l).
+Proof.
+  revert i. induction l as [|h t IH]; intros i H; simpl; auto.
+  inversion H; subst. rewrite H2, IH; auto.
+Qed.
+
+Lemma nproc_single_node h0 t mw :
+  Forall (eq h0) t ->
+  nproc (h0 :: t) mw = if eff_workers (S (length t)) mw <? 2 then None else Some (eff_workers (S (length t)) mw - 1).
+Proof.
+  intros H. unfold nproc, active_ranks, same_node. cbn [length].
+  rewrite idx_where_all.
+  2:{ constructor; [apply Nat.eqb_refl|]. eapply Forall_impl; [|exact H]. intros a <-. apply Nat.eqb_refl. }
+  cbn [length]. set (e := eff_workers (S (length t)) mw).
+  assert (He : e <= S (length t)).
+  { unfold e, eff_workers. destruct mw as [[|m]|]; lia. }
+  destruct (e <? 2) eqn:E; auto. apply Nat.ltb_ge in E.
+  assert (Hf : firstn e (seq 0 (S (length t))) = seq 0 e).
+  { replace (S (length t)) with (e + (S (length t) - e)) by lia. rewrite seq_app, firstn_app, seq_length.
+    replace (e - e) with 0 by lia. rewrite firstn_O, app_nil_r. apply firstn_all2. rewrite seq_length. lia. }
+  rewrite Hf. destruct e as [|[|e']]; try lia. cbn [seq]. rewrite seq_length. f_equal; lia.
+Qed.
+
+(* ... so on one node cutting by the worker limit (minus the writer) is cutting by the number of
+   processing ranks: no single-node world, whatever its size, limit or schedule, tells them apart *)
+Corollary variant_single_node_agrees (A : Type) h0 t mw np (l : list A) :
+  Forall (eq h0) t -> nproc (h0 :: t) mw = Some np ->
+  scatter_var (eff_workers (S (length t)) mw - 1) np l = scatter np l.
+Proof.
+  intros H Hn. assert (Hp : 0 < np) by (eapply nproc_pos; eauto).
+  rewrite (@nproc_single_node h0 t mw H) in Hn.
+  destruct (_ <? 2); [discriminate|]. inversion Hn as [E]. rewrite E.
+  apply scatter_var_same; auto.
+Qed.
+
+(* two nodes with two ranks each, no limit: 4 workers allowed, one processing rank.  Cutting the
+   chunk into 4 - 1 pieces and handing out one loses records 2 and 3 on EVERY schedule, all
+   ranks return *)
+Theorem variant_multi_node_refuted :
+  nproc [0; 0; 1; 1] None = Some 1 /\
+  forall sm (s : MpiWrite.wst nat),
+    wreach Sync sm (winit (map (scatter_var (eff_workers 4 None - 1) 1) [[1; 2; 3]]) (1 - 1)) s -> stopped s = true ->
+    stored s <> [] /\ ~ Permutation (concat [[1; 2; 3]]) (stored s).
+Proof.
+  split; [reflexivity|]. intros sm s Hr Hs.
+  destruct (write_ssend_no_loss Hr Hs) as [Hp _].
+  assert (Ha : all_recs (map (scatter_var (eff_workers 4 None - 1) 1) [[1; 2; 3]]) = [1]) by reflexivity.
+  rewrite Ha in Hp. clear Ha.
+  split.
+  - intros E. rewrite E in Hp. apply Permutation_length in Hp. discriminate.
+  - intros Hq. apply Permutation_length in Hp. apply Permutation_length in Hq. simpl in *. congruence.
+Qed.
